@@ -68,7 +68,9 @@ type srcCase struct {
 
 var tokenSoup = []string{"@", "GET", "POST", "/a/:x", "{", "}", "(", ")", "[", "]", "$", ">", "<", "?", "!", "%", "+", "-", "*", "/", "=", "==", "!=", "<=", ">=", "&&", "||", "|>", "->", "=>", "...", ":", "::", ",", ".",
 	"x", "y", "if", "else", "while", "for", "in", "switch", "case", "default", "match", "when", "async", "await", "break", "continue", "let", "return", "true", "false", "null",
-	"1", "2.5", "\"s\"", "'q'", "\"unterminated", "\n", "\n", " ", "\t", "# c\n", "// c\n", "int", "str", "List[int]", "type", "route", "import", "from", "const", "macro", "quote", "assert", "test", "\xff", "\x00", "é", "\r", "\ufeff"}
+	"1", "2.5", "\"s\"", "'q'", "\"unterminated", "\n", "\n", " ", "\t", "# c\n", "// c\n", "int", "str", "List[int]", "type", "route", "import", "from", "const", "macro", "quote", "assert", "test", "\xff", "\x00", "é", "\r", "\ufeff",
+	// text that is longer in bytes than in characters, in the places source text has it: column arithmetic in diagnostics
+	"\"日本語\"", "\"ééééééééé\"", "\"😀😀\"", "'ñ'", "# комментарий\n", "// 注释\n", "ünï", "\"a\u0301\""}
 
 func nest(shape string, d int) string {
 	rep := strings.Repeat
@@ -161,7 +163,11 @@ func genSrc(rt *rapid.T) srcCase {
 		nm := 1 + lang.Spread(rt, "nmut", 4)
 		for i := 0; i < nm && len(src) > 0; i++ {
 			p := lang.Spread(rt, "pos", len(src))
-			switch lang.Spread(rt, "mut", 5) {
+			switch lang.Spread(rt, "mut", 7) {
+			case 5, 6:
+				// a multi-byte literal or comment in front of whatever follows on this line
+				ins := []string{" \"日本語テキスト\" ", " \"éééééééééééé\" + ", "\"😀\"", " # é\n", "ñ"}[lang.Spread(rt, "mb", 5)]
+				src = append(src[:p], append([]byte(ins), src[p:]...)...)
 			case 0:
 				src = append(src[:p], src[p+1:]...)
 			case 1:
@@ -217,6 +223,16 @@ func runSrc(c srcCase) evid.Outcome {
 	return out
 }
 
+// render formats an error the ways a caller does (Error, %v, %+v). A panic here propagates to the
+// unit's recover and is reported as a crash.
+func render(err error) {
+	if err == nil {
+		return
+	}
+	_ = err.Error()
+	_ = fmt.Sprintf("%v %+v %s", err, err, err)
+}
+
 func clip(s string) string {
 	if len(s) > 300 {
 		return s[:300] + "…"
@@ -227,6 +243,7 @@ func clip(s string) string {
 func runSrcInner(c srcCase, in string) evid.Outcome {
 	m := startMeter()
 	toks, lerr := parser.NewLexer(in).Tokenize()
+	render(lerr) // a diagnostic is something that can be shown: rendering it must not crash either
 	if f := m.check(len(in), "Lexer.Tokenize"); f != nil {
 		return evid.Outcome{Fail: f}
 	}
@@ -238,6 +255,7 @@ func runSrcInner(c srcCase, in string) evid.Outcome {
 	if lerr == nil {
 		m = startMeter()
 		mod, perr := parser.NewParser(toks).Parse()
+		render(perr)
 		if f := m.check(len(in), "Parser.Parse"); f != nil {
 			f.Msg += fmt.Sprintf(" (%s %s depth %d)", c.Kind, c.Shape, c.Depth)
 			return evid.Outcome{Fail: f}
@@ -252,12 +270,14 @@ func runSrcInner(c srcCase, in string) evid.Outcome {
 	}
 	m = startMeter()
 	etoks, eerr := parser.NewExpandedLexer(in).Tokenize()
+	render(eerr)
 	if f := m.check(len(in), "ExpandedLexer.Tokenize"); f != nil {
 		return evid.Outcome{Fail: f}
 	}
 	if eerr == nil {
 		m = startMeter()
-		parser.NewParser(etoks).Parse()
+		_, eperr := parser.NewParser(etoks).Parse()
+		render(eperr)
 		if f := m.check(len(in), "Parser.Parse(expanded tokens)"); f != nil {
 			return evid.Outcome{Fail: f}
 		}
@@ -419,6 +439,8 @@ func runBCInner(bc []byte) evid.Outcome {
 	}
 	m = startMeter()
 	d, derr := decompiler.NewDecompiler().Decompile(bc)
+	render(derr)
+	render(err)
 	if derr == nil && d != nil {
 		_ = d.Format()
 		_ = d.FormatDisassembly()
